@@ -31,6 +31,10 @@ BASE = [
     {"e1": [["submit", 1], ["submit", 2], ["resize", 2], ["shutdown", 1]]},
     {"e1": [["resize", 2], ["resize", 1], ["shutdown", 1]], "e2": [["submit", 3], ["submit", 1]]},
     {"e1": [["resize", 3], ["submit", 1], ["submit", 2], ["submit", 3], ["submit", 4], ["resize", 1]]},
+    # task 7 is a long poll that returns only once task 8 has run: both must be handed to a worker
+    {"e1": [["resize", 2], ["submit", 7], ["submit", 8]]},
+    {"e1": [["resize", 2], ["submit", 7]], "e2": [["submit", 8], ["submit", 1]]},
+    {"e1": [["resize", 3], ["submit", 1], ["submit", 7], ["submit", 8], ["resize", 2]]},
 ]
 
 
@@ -64,8 +68,9 @@ def tla_env(scn):
 
 MC_CFG = """SPECIFICATION %s
 CONSTANTS Workers = {0,1,2,3,4,5,6,7,8}
-Tasks = {1,2,3,4,5,6}
+Tasks = {1,2,3,4,5,6,7,8}
 Follow <- MCFollow
+Waits <- MCWaits
 Env <- MCEnv
 INVARIANT ExactlyOnceInv
 INVARIANT AccountedInv
@@ -82,7 +87,7 @@ def mc(i, scn, live):
     wd = tlc.scratch("mcd")
     mod = "MC_Disp_%d" % i
     with open(os.path.join(wd, mod + ".tla"), "w") as f:
-        f.write("---- MODULE %s ----\nEXTENDS Dispatcher\nMCEnv == %s\nMCFollow == [t \\in 1..6 |-> IF t = 3 THEN 5 ELSE IF t = 4 THEN 6 ELSE 0]\n====\n" % (mod, tla_env(scn)))
+        f.write("---- MODULE %s ----\nEXTENDS Dispatcher\nMCEnv == %s\nMCFollow == [t \\in 1..8 |-> IF t = 3 THEN 5 ELSE IF t = 4 THEN 6 ELSE 0]\nMCWaits == [t \\in 1..8 |-> IF t = 7 THEN 8 ELSE 0]\n====\n" % (mod, tla_env(scn)))
     cfg = MC_CFG % ("FairSpec" if live else "Spec", "PROPERTY EventuallyQuiescent" if live else "")
     try:
         return tlc.run(mod, cfg, workdir=wd, workers=4, deadlock=False, timeout=900)
@@ -125,7 +130,7 @@ def run(chk, replay=None):
             meta[str(t)] = (res["scn"]["env"], choices)
     chk.extra["schedules_executed"] = runs
     chk.extra["distinct_event_sequences"] = len(traces)
-    consts = "CONSTANTS Workers = {0,1,2,3,4,5,6,7,8,9}\nTasks = {1,2,3,4,5,6}\nFollow <- TFollow\n"
+    consts = "CONSTANTS Workers = {0,1,2,3,4,5,6,7,8,9}\nTasks = {1,2,3,4,5,6,7,8}\nFollow <- TFollow\nWaits <- TWaits\n"
     # Follow is fixed for all scenarios (tasks 3 and 4 submit 5 and 6)
     wd_mod = "Trace_Dispatcher"
     rej, drift = tv.validate(chk, wd_mod, traces, consts, name="TV:Dispatcher", workers=8)
